@@ -247,6 +247,39 @@ def main():
                     direct.append({"law": "a DAP2 body cut short raises or decodes to the complete data (open_dods_url)",
                                    "dataset": repr(desc)[:800], "cut_at": k, "length": len(body)})
                     break
+    # ---------------------------------------------------------- the streaming client on cut responses: every record boundary and
+    # sampled other offsets of a sequence response; the reader raises or delivers all the records
+    class Cut:
+        def __init__(self, app_, at):
+            self.app_, self.at = app_, at
+
+        def __call__(self, environ, start_response):
+            body_ = b"".join(self.app_(environ, start_response))
+            if environ.get("PATH_INFO", "").endswith(".dods"):
+                body_ = body_[:self.at]
+            return [body_[i_:i_ + 7] for i_ in range(0, len(body_), 7)] or [b""]
+    from pydap.model import BaseType as _BT, DatasetType as _DT, SequenceType as _ST
+    cq = _DT("c")
+    cs_ = _ST("q")
+    cs_["a"] = _BT("a")
+    cs_["s"] = _BT("s")
+    cs_.data = np.array([(j, "r%d" % j) for j in range(6)], dtype=[("a", "i4"), ("s", "S4")])
+    cq["q"] = cs_
+    capp = BaseHandler(cq)
+    full_body = Request.blank("/.dods?q").get_response(capp).body
+    want_c = [(j, "r%d" % j) for j in range(6)]
+    for at in range(full_body.index(b"Data:\n") + 6, len(full_body)):
+        r.count(("client-cut", at))
+        try:
+            cc = open_url("http://localhost:8001/", application=Cut(capp, at))
+            got_c = [(int(a_), s_.decode() if isinstance(s_, bytes) else str(s_)) for a_, s_ in cc["q"].iterdata()]
+        except BaseException:  # noqa
+            got_c = None
+        trunc2_checked += 1
+        if got_c is not None and got_c != want_c:
+            direct.append({"law": "a sequence response cut short raises or delivers all the records (streaming client)", "cut_at": at,
+                           "length": len(full_body), "records_delivered": len(got_c), "records_served": len(want_c)})
+            break
     # ---------------------------------------------------------- a response much larger than any buffer: 12000 records (~190 KiB)
     from pydap.model import BaseType, DatasetType, SequenceType
     big = DatasetType("big")
